@@ -317,3 +317,36 @@ def check(prog, run):
     nomemo.check(prog, run, "P8", [call], "ASTSchemaPrinter.__call__",
                  "values that compare equal across types (True == 1 == 1.0) or objects changed in place since would be rendered from "
                  "an earlier call, so the text depends on what was printed before", 30)
+
+    # ---- P9 every provided member of an input-object default is rendered
+    from .. import boolx
+    r = run.rule("P9", "_object_value_node_from_value: for a member whose name is present in the value (membership atom true) every path "
+                       "through the per-member loop body appends an ObjectField — explicit null included; dropping a provided member makes "
+                       "the rebuilt schema fill in that member's own default", 1)
+    ov = prog.get_func("py_gql.utilities.ast_node_from_value", "_object_value_node_from_value")
+    run.looked_at(ov)
+    loops = [n for n in ov.node.body if isinstance(n, ast.For)]
+    if len(loops) != 1:
+        raise AnalysisError("C12.P9: per-member loop of _object_value_node_from_value not found")
+    fake = ast.FunctionDef(name="_", args=ov.node.args, body=loops[0].body, decorator_list=[], returns=None, type_comment=None)
+
+    def decide(t):
+        try:
+            e = ast.parse(t, mode="eval").body
+        except SyntaxError:
+            return None
+        return True if isinstance(e, ast.Compare) and len(e.ops) == 1 and isinstance(e.ops[0], ast.In) else None
+    try:
+        _ev, exits = boolx.walk_under(fake, decide)
+    except ValueError as e:
+        raise AnalysisError("C12.P9: %s" % e)
+    r.instance("per-member loop body: %d paths with the member present" % len(exits))
+    for kind, st, env in exits:
+        if kind == "raise":
+            continue
+        appended = any(isinstance(c.func, ast.Attribute) and c.func.attr == "append" for c in env.get(boolx.CALLS, ()))
+        if not appended:
+            cond = ", ".join("%s=%s" % kv for kv in sorted(env.items()) if kv[0] not in (boolx.CALLS, boolx.STMTS))
+            run.report(r, "py_gql.utilities.ast_node_from_value:_object_value_node_from_value:provided-member-dropped", ov.where(st) if st is not None else ov.where(loops[0]),
+                       "a member present in the value can be left out of the printed object literal (when %s)" % cond)
+            break
